@@ -5350,11 +5350,27 @@ func (a *taggedTemplateArray) equal(other objectImpl) bool {
 	return false
 }
 
+// cloneTemplateValues copies the property slots of a template array. The compiled slices are shared by every
+// Runtime that runs the Program (possibly concurrently), whereas the array objects built from them can be written to
+// (e.g. Object.freeze() re-marks each slot), so each template object gets its own copy.
+func cloneTemplateValues(src []Value) []Value {
+	dst := make([]Value, len(src))
+	for i, v := range src {
+		if p, ok := v.(*valueProperty); ok {
+			cp := *p
+			dst[i] = &cp
+		} else {
+			dst[i] = v
+		}
+	}
+	return dst
+}
+
 func (c *getTaggedTmplObject) exec(vm *vm) {
 	cooked := vm.r.newArrayObject()
-	setArrayValues(cooked, c.cooked)
+	setArrayValues(cooked, cloneTemplateValues(c.cooked))
 	raw := vm.r.newArrayObject()
-	setArrayValues(raw, c.raw)
+	setArrayValues(raw, cloneTemplateValues(c.raw))
 
 	cooked.propValueCount = len(c.cooked)
 	cooked.lengthProp.writable = false
